@@ -246,11 +246,14 @@ func (f *Frame) execInstr(ins ssa.Instruction, st *State) {
 	case *ssa.If:
 		// branching is handled by run; `assert@if <condition text>#n` clauses are evaluated here, in the
 		// state in which the condition is tested (after the merge of whatever precedes the if statement)
-		if f.top && f.contract != nil && len(f.contract.Asserts) > 0 && x.Cond.Pos().IsValid() {
+		if f.top && f.contract != nil && len(f.contract.Asserts) > 0 {
+			// callarg0 = the value of the condition; addressable by the source text of the condition
+			// (`assert@if a < b#0`) or by position among the function's branches (`assert@if #3`)
+			f.curCallArgs = []*V{f.val(x.Cond)}
 			if txt := u.eng.IfCondTextAt(x.Cond.Pos()); txt != "" {
-				f.curCallArgs = nil
 				f.anchorsAt("if", txt, st)
 			}
+			f.anchorsAt("if", "", st)
 		}
 	case *ssa.Jump:
 		// handled by run
